@@ -1205,6 +1205,12 @@ func (o Map) IndexGet(index Object) (Object, error) {
 func (o Map) Equal(right Object) bool {
 	v, ok := right.(Map)
 	if !ok {
+		if sm, ok := right.(*SyncMap); ok {
+			sm.mu.RLock()
+			defer sm.mu.RUnlock()
+
+			return o.Equal(sm.Value)
+		}
 		return false
 	}
 
@@ -1356,6 +1362,10 @@ func (o *SyncMap) Equal(right Object) bool {
 	o.mu.RLock()
 	defer o.mu.RUnlock()
 
+	if v, ok := right.(*SyncMap); ok && v == o {
+		// do not read-lock the same mutex twice
+		return o.Value.Equal(o.Value)
+	}
 	return o.Value.Equal(right)
 }
 
